@@ -200,7 +200,11 @@ func (g *genCtx) field(depth int, used map[uint32]bool) (FieldT, bool) {
 	}
 	ft := FieldT{AVP: c.Name, DT: c.DT, Kind: KScalar, Tag: pickTag(t),
 		Wrap: rapid.SampledFrom([]string{WNone, WNone, WPtr, WSlice, WSlicePtr}).Draw(t, "wrap")}
-	if rapid.IntRange(0, 9).Draw(t, "go-dt") < 4 {
+	if k := rapid.IntRange(0, 9).Draw(t, "go-dt"); k < 3 {
+		ft.Go = "dt"
+	} else if k < 5 && len(foreignFor[c.DT]) > 0 {
+		ft.Go = "dt:" + rapid.SampledFrom(foreignFor[c.DT]).Draw(t, "foreign")
+	} else if k < 4 {
 		ft.Go = "dt"
 	} else {
 		ft.Go = rapid.SampledFrom(nativeFor[c.DT]).Draw(t, "go")
@@ -337,5 +341,6 @@ func genCase(t *rapid.T) Case {
 	g := &genCtx{t: t, pl: poolFor(c.Dict, p, cat, c.App), o: &oracle{p: p, app: c.App}}
 	c.Type = g.fields(1, 1, 6, map[uint32]bool{})
 	c.Val = g.values(c.Type)
+	c.Prefill = rapid.SampledFrom([]string{"", "", "", "", "", preAVPs, preRemarshal, preOther}).Draw(t, "prefill")
 	return c
 }
